@@ -241,6 +241,7 @@ struct ReluctantRepeatIterator<'a> {
     max: usize,
     counter: usize,
     position: Option<usize>,
+    started: bool,
 }
 
 impl<'a> ReluctantRepeatIterator<'a> {
@@ -258,6 +259,7 @@ impl<'a> ReluctantRepeatIterator<'a> {
             max,
             counter: 0,
             position: Some(position),
+            started: false,
         }
     }
 }
@@ -266,27 +268,35 @@ impl Iterator for ReluctantRepeatIterator<'_> {
     type Item = usize;
 
     fn next(&mut self) -> Option<Self::Item> {
-        loop {
-            if let Some(position) = self.position {
+        let mut position = self.position?;
+        if !self.started {
+            // the first result is the position after the minimum number of
+            // repetitions (the start position itself if that minimum is zero)
+            self.started = true;
+            while self.counter < self.min {
                 let mut it = self.operation.matches_iter(self.matcher, position);
-                if let Some(position) = it.next() {
+                if let Some(next) = it.next() {
                     self.counter += 1;
-                    if self.counter > self.max {
-                        self.position = None;
-                    } else {
-                        self.position = Some(position);
-                    }
+                    position = next;
+                } else {
+                    self.position = None;
+                    return None;
                 }
-            } else if self.min == 0 && self.counter == 0 {
-                self.counter += 1;
-            } else {
-                self.position = None;
             }
-            if self.counter >= self.min || self.position.is_none() {
-                break;
+            self.position = Some(position);
+            return self.position;
+        }
+        // every further result takes one more repetition
+        if self.counter < self.max {
+            let mut it = self.operation.matches_iter(self.matcher, position);
+            if let Some(next) = it.next() {
+                self.counter += 1;
+                self.position = Some(next);
+                return self.position;
             }
         }
-        self.position
+        self.position = None;
+        None
     }
 }
 
